@@ -68,7 +68,7 @@ class _Return(Exception):
         self.v = v
 
 
-def _run_helper(fn, env):
+def _run_helper(fn, env, members=None, depth=0):
     def ev(e):
         if isinstance(e, ast.Constant):
             return e.value
@@ -151,6 +151,41 @@ def _run_helper(fn, env):
                 v = ev(e.args[0])
                 if isinstance(v, _Text):
                     return v
+            if f == 'bool' and len(e.args) == 1:
+                return truthy(ev(e.args[0]))
+            # a helper of the same class: interpreted with the arguments bound
+            if isinstance(e.func, ast.Attribute) and isinstance(e.func.value, ast.Name) and e.func.value.id in ('self', 'cls') and \
+                    members is not None and isinstance(members.get(e.func.attr), ast.FunctionDef) and depth < 3:
+                callee = members[e.func.attr]
+                static = any(isinstance(d, ast.Name) and d.id == 'staticmethod' for d in callee.decorator_list)
+                ps_ = [a.arg for a in callee.args.args]
+                if not static:
+                    ps_ = ps_[1:]
+                env2 = {'self': env.get('self'), 'cls': env.get('self')}
+                vals = [ev(a) for a in e.args]
+                if len(vals) > len(ps_) or callee.args.vararg or callee.args.kwarg:
+                    raise Unmodelled(f'call {f}')
+                for p_, v_ in zip(ps_, vals):
+                    env2[p_] = v_
+                for kw in e.keywords:
+                    if kw.arg not in ps_:
+                        raise Unmodelled(f'call {f}')
+                    env2[kw.arg] = ev(kw.value)
+                dflt = callee.args.defaults
+                for i_, p_ in enumerate(ps_):
+                    if p_ not in env2:
+                        di = i_ - (len(ps_) - len(dflt))
+                        if di < 0 or not isinstance(dflt[di], ast.Constant):
+                            raise Unmodelled(f'call {f}: missing argument {p_}')
+                        env2[p_] = dflt[di].value
+                r = _run_helper(callee, env2, members, depth + 1)
+                if r == ERR:
+                    return '#ERR'
+                if isinstance(r, tuple) and r and r[0] == 'raises':
+                    raise _Raise(r[1])
+                if isinstance(r, list):
+                    return _Text(r) if r or True else _Blank()
+                return r
             raise Unmodelled(f'call {f}')
         if isinstance(e, ast.Subscript):
             base = ev(e.value)
@@ -264,7 +299,7 @@ def r1(run: Run, rt):
                         else:
                             env[ps[1]] = n
                         try:
-                            got = _run_helper(fn, env)
+                            got = _run_helper(fn, env, cp.members)
                         except Unmodelled as u:
                             raise AnalysisError('C17.R1', f'{h}: {u} is outside the modelled slicing subset')
                         want = _spec(kind, L, n, k)
